@@ -124,6 +124,9 @@ def check_adv(prop, tier, replay):
         sample = 400 if tier == "quick" else None
         jobs, out, res, nscen = run_campaign(prop, tier, v, wd, rng, sample=sample)
     report(v, prop, jobs, res)
+    extra = {}
+    if prop == "C04" and not replay:
+        extra = c04_order(v, tier, wd, rng)
     sites = {}
     for j in jobs:
         t = j["tag"]
@@ -145,11 +148,40 @@ def check_adv(prop, tier, replay):
         "honest_and_corrupted_outcomes": dict(sorted(outcomes.items(), key=lambda kv: -kv[1])[:25]),
         "exhaustive": tier == "thorough",
     }
+    v.coverage.update(extra)
     v.assumptions = ["one corrupted party; it runs the honest code and deviates in the messages it sends (and in tapped bits)",
                      "bytes inside a malformation class are fixed representatives"]
     rc = v.finish()
     shutil.rmtree(wd, ignore_errors=True)
     return rc
+
+
+def c04_order(v, tier, wd, rng):
+    """C04(b): no reveal before every commitment of the round was received -- invariant of MC_Sched over all
+    interleavings, and Mon_C04b over the posted/completed operation traces of real runs under adversarial schedulers."""
+    from . import engine
+    q = tier == "quick"
+    states = 0
+    for (n, circ, pe, cap) in ([(2, ej.fixed_small(2)[1], 0, 1)] if q else
+                               [(2, ej.fixed_small(2)[1], 0, 1), (2, ej.and_chain(2, 2), 1, 2), (3, ej.fixed_small(3)[2], 1, 1)]):
+        r = engine.mc_sched(wd, circ_cfg(circ, n, pe, list(range(n))), engine.scaled_consts(cap), name=f"ord{n}{pe}{cap}")
+        if not r["ok"]:
+            raise vlib.ToolError("MC_Sched (NoEarlyReveal) reports an error:\n" + vlib.strip_tlc(r["out"])[-1500:])
+        states += r["distinct"]
+    jobs = []
+    for n in (2, 3) if q else (2, 3, 4):
+        for k, kind in enumerate(ej.POLICIES):
+            c = ej.fixed_small(n)[k % 3]
+            jobs.append(ej.job(f"ord.n{n}.{kind}", c, ej.rand_inputs(rng, c), k % n, [0], cap=[1, 2, 0][k % 3],
+                               pol=ej.policy(rng, n, kind)))
+    out = vlib.run_pt("engine", jobs, wd, name="ord")
+    res = vlib.tlc_trace("Mon_C04b", vlib.MON_CFG, out, wd, name="mon4b")
+    jb = {j["id"]: j for j in jobs}
+    for x in res.get("viol", []):
+        v.violation("C04: " + x["what"].split(" number")[0] + " before all commitments were received",
+                    {"kind": "engine-job", "job": jb[x["run"]], "party": x["p"]}, f"run {x['run']}: party {x['p']}: {x['what']}")
+    return {"commit_before_reveal": {"mc_sched_states_all_interleavings": states, "real_runs_under_adversarial_schedulers": len(jobs),
+                                     "reveal_sends_checked": res["checked"]}}
 
 
 def _mk(prop):
